@@ -1,7 +1,7 @@
 """C12: traceparent / id text codecs -- writer/reader tables agree; fixed widths; error discipline."""
 import re
 
-from .core import Prov, discr_cond_edges, has_origin, origin_strs, root_local, result_switches, const_value
+from .core import Prov, bool_cond_edges, discr_cond_edges, has_origin, origin_strs, root_local, result_switches, const_value
 from . import panics
 
 ID = "fastrace::collector::id::"
@@ -135,23 +135,45 @@ def rule_reader_agrees(ctx, facts, rule, table):
               "", "split argument %s" % ([fn.term(b)["args"][1].get("repr") for b in splits]), extra="sep")
     nexts = [b for b in fn.calls_re(r"Iterator>?::next$", cleanup=False) if "Split<" in fn.term(b)["arg_tys"][0]]
     nexts.sort(key=lambda b: len(fn.dominators().get(b, ())))
-    chain = all(fn.dominates(nexts[i], nexts[i + 1]) for i in range(len(nexts) - 1))
-    ctx.check(len(nexts) == 5 and chain, rule, path, fn.span,
-              "exactly five fields are requested from the split (four expected, the fifth must be absent)",
-              "", "%d Split::next calls" % len(nexts), extra="five")
-    if len(nexts) != 5:
-        return
-    dests = [fn.term(b)["dest"]["l"] for b in nexts]
+    collects = [b for b in fn.calls_re(r"Iterator>?::collect$", cleanup=False) if "Split<" in " ".join(fn.term(b)["arg_tys"])]
+    slice_form = bool(collects) and not nexts
+    if slice_form:
+        # the fields are collected and matched as a slice: `match fields[..] { ["00", a, b, c] => .. }`
+        def arity(o):
+            return any(v[0] == "binop" and v[1] == "Eq" and v[2] == 4 for v in o.via) and \
+                (any(v[0] == "unop" and v[1] == "PtrMetadata" for v in o.via) or any(v[0] == "call" and v[1].endswith("::len") for v in o.via)) and \
+                any(v[0] == "call" and v[2] in collects for v in o.via)
+        four = bool_cond_edges(fn, prov, arity, True)
+        ctx.check(bool(four), rule, path, fn.span,
+                  "exactly four fields are accepted (the collected split has length 4)", "slice pattern of length 4", "no length test == 4 on the collected fields", extra="five")
+        if not four:
+            return
+    else:
+        chain = all(fn.dominates(nexts[i], nexts[i + 1]) for i in range(len(nexts) - 1))
+        ctx.check(len(nexts) == 5 and chain, rule, path, fn.span,
+                  "exactly five fields are requested from the split (four expected, the fifth must be absent)",
+                  "", "%d Split::next calls" % len(nexts), extra="five")
+        if len(nexts) != 5:
+            return
+
+    def index_of(origins):
+        idx = set()
+        for o in origins:
+            if slice_form:
+                if any(v[0] == "call" and v[2] in collects for v in o.via):
+                    for e in o.path:
+                        m = re.fullmatch(r"\[(\d+)\]", e)
+                        if m:
+                            idx.add(int(m.group(1)))
+            else:
+                for v in o.via:
+                    if v[0] == "call" and v[2] in nexts:
+                        idx.add(nexts.index(v[2]))
+        return idx
 
     def field_index(op):
-        """Which of the five next() results an operand derives from."""
-        src = prov.of_operand(fn, op)
-        idx = set()
-        for o in src:
-            for v in o.via:
-                if v[0] == "call" and v[2] in nexts:
-                    idx.add(nexts.index(v[2]))
-        return idx
+        """Which of the fields an operand derives from."""
+        return index_of(prov.of_operand(fn, op))
     # version
     eqs = [b for b in fn.calls_re(r"PartialEq(<.*>)?>?::(eq|ne)$|PartialEq for str>::(eq|ne)$", cleanup=False)]
     okv = False
@@ -214,18 +236,26 @@ def rule_reader_agrees(ctx, facts, rule, table):
                 idx.add(k)
             return idx == {k}
         return pred
+    if slice_form:
+        ctx.check(bool(parses) and fn.guarded(parses, four), rule, path, fn.span,
+                  "the ids are parsed only when fields 0-3 are present and a fifth field is absent", "guarded by the length-4 test",
+                  "a parse is reachable without the length-4 test", extra="arity")
+        return_after_arity = True
+    else:
+        return_after_arity = False
     some_edges = 0
-    for k in range(4):
+    for k in range(0 if slice_form else 4):
         e = discr_cond_edges(fn, prov, r"Option<&", ["Some"], place_pred=derives_from(k))
         for sb in result_switches(fn, nexts[k]):
             e |= set(fn.variant_edges(sb, ["Some"]))
         if e and parses and fn.guarded(parses, e):
             some_edges += 1
-    e5 = discr_cond_edges(fn, prov, r"Option<&", ["None"], place_pred=derives_from(4))
-    for sb in result_switches(fn, nexts[4]):
+    e5 = set() if slice_form else discr_cond_edges(fn, prov, r"Option<&", ["None"], place_pred=derives_from(4))
+    for sb in ([] if slice_form else result_switches(fn, nexts[4])):
         e5 |= set(fn.variant_edges(sb, ["None"]))
     fifth_none = bool(parses) and bool(e5) and fn.guarded(parses, e5)
-    ctx.check(some_edges >= 4 and fifth_none, rule, path, fn.span,
+    if not return_after_arity:
+      ctx.check(some_edges >= 4 and fifth_none, rule, path, fn.span,
               "the ids are parsed only when fields 0-3 are present and a fifth field is absent", "",
               "presence tests: %d, fifth-field-absent guard: %s" % (some_edges, fifth_none), extra="arity")
     # FromStr / Deserialize
@@ -279,12 +309,19 @@ def rule_sign_rejected(ctx, facts, rule):
     nexts = [b for b in fn.calls_re(r"Iterator>?::next$", cleanup=False) if "Split<" in fn.term(b)["arg_tys"][0]]
     nexts.sort(key=lambda b: len(fn.dominators().get(b, ())))
 
+    collects = [b for b in fn.calls_re(r"Iterator>?::collect$", cleanup=False) if "Split<" in " ".join(fn.term(b)["arg_tys"])]
+
     def fields_of(origins):
         idx = set()
         for o in origins:
             for v in o.via:
                 if v[0] == "call" and v[2] in nexts and v[1].endswith("::next"):
                     idx.add(nexts.index(v[2]))
+            if not nexts and any(v[0] == "call" and v[2] in collects for v in o.via):
+                for e in o.path:      # collected fields matched as a slice: fields[k]
+                    m = re.fullmatch(r"\[(\d+)\]", e)
+                    if m:
+                        idx.add(int(m.group(1)))
         return idx
     parses = [b for b in fn.calls_re(r"core::num::<impl u\d+>::from_str_radix$", cleanup=False)]
     if not ctx.floor(rule, path, len(parses), 3, "from_str_radix calls in the decoder"):
